@@ -241,7 +241,10 @@ class BaseInput(BasePort):
         while True:
             try:
                 yield self.receive()
-            except OSError:
+            except (OSError, ValueError):
+                # receive() raises ValueError if the port was already
+                # closed when it was called and OSError if it closed
+                # while waiting.
                 if self.closed:
                     # The port closed before or inside receive().
                     # (This makes the assumption that this is the reason,
